@@ -366,6 +366,11 @@ impl Bmi2BlockOps {
         
         for chunk in ranks.chunks(chunk_size) {
             for &rank in chunk {
+                // ranks are 1-based: there is no 0-th set bit
+                if rank == 0 {
+                    return Err(ZiporaError::invalid_data("Select rank 0 not found (ranks are 1-based)".to_string()));
+                }
+
                 let mut total_ones = 0;
                 let mut found = false;
                 
